@@ -12,7 +12,7 @@ META = common.meta(
                ['__init__', 'full', 'matricize', 'element', '__add__', '__sub__', '__mul__', '__rmul__', '__matmul__',
                 'dot', 'transpose', 'conj', 'copy', 'isoperator', 'norm']] +
               ['scikit_tt.tensor_train:%s' % f for f in ['zeros', 'ones', 'eye', 'unit', 'uniform', 'residual_error']],
-    rule='T3: enumerated+seeded family of (order, row dims, col dims, ranks, kind) with real/complex/mixed cores; '
+    rule='T3: enumerated+seeded family of (order, row dims, col dims, ranks, kind) with real/complex/mixed cores (complex data in even cores, only in cores k>=1 of the left, only in cores k>=1 of the right operand); '
          'a case is non-trivial if the dense tensor has at least 2 entries or the order is 1 (edge case); '
          'distinct = distinct (obligation, case) pairs.')
 
@@ -26,11 +26,11 @@ def tasks(tier, seed):
     if tier == 'quick':
         fam = spec.shape_family([1, 2, 3], [1, 2, 3], [1, 2, 3], operator=True, limit=60, rng=rng)
         fam += spec.shape_family([4], [1, 2], [1, 2, 3], operator=True, limit=8, rng=rng)
-        kinds = ['real', 'complex', 'mixed']
+        kinds = ['real', 'complex', 'mixed', 'mixed1', 'rmixed']
     else:
         fam = spec.shape_family([1, 2, 3], [1, 2, 3], [1, 2, 3], operator=True, limit=400, rng=rng)
         fam += spec.shape_family([4, 5], [1, 2, 3], [1, 2, 3, 4], operator=True, limit=80, rng=rng)
-        kinds = ['real', 'complex', 'mixed']
+        kinds = ['real', 'complex', 'mixed', 'mixed1', 'rmixed']
     # always include the degenerate corners
     fam = [([1], [1], [1, 1]), ([2], [1], [1, 1]), ([2], [3], [1, 1]), ([1, 1], [1, 1], [1, 2, 1]),
            ([2, 1], [1, 2], [1, 1, 1]), ([2, 2, 2], [1, 1, 1], [1, 2, 2, 1])] + fam
@@ -48,7 +48,7 @@ def _second(rng, rd, cd, rk, kind):
     """a second operand with the same dims and independent admissible ranks"""
     d = len(rd)
     rk2 = [1] + [int(rng.integers(1, 4)) for _ in range(d - 1)] + [1]
-    k2 = {'real': 'real', 'complex': 'complex', 'mixed': 'real'}[kind]
+    k2 = {'real': 'real', 'complex': 'complex', 'mixed': 'real', 'mixed1': 'real', 'rmixed': 'mixed1'}[kind]
     return spec.rand_tt(rng, rd, cd, rk2, k2)
 
 
@@ -66,7 +66,8 @@ def t3_case(case):
         obs.append(c)
         return c
 
-    a = spec.rand_tt(rng, rd, cd, rk, kind)
+    # mixed1: complex data only in cores k >= 1 of the left operand; rmixed: only in cores k >= 1 of the right operand
+    a = spec.rand_tt(rng, rd, cd, rk, 'real' if kind == 'rmixed' else kind)
     b = _second(rng, rd, cd, rk, kind)
     A, B = spec.den(a), spec.den(b)
     nontriv = A.size >= 2 or d == 1
